@@ -24,7 +24,7 @@ def run(ctx):
     ctx.rule = ("real runs: 19 shipped .ini (shortened end time) + generated variants (particle number, grid, chain time, sampling "
                 "interval, scheduler), seeded; a case = one committed event; distinct non-trivial class = (configuration, "
                 "committing event-handler class)")
-    trs = runcommon.traces(ctx)
+    trs = runcommon.traces(ctx, with_resumed=True)
     for tr in trs:
         meta = tr["meta"]
         if not tr["legs"]:
